@@ -55,6 +55,10 @@ def z_round_half_even(x):
 
 
 def neg(I, st, v):
+    from .values import Inf as _Inf
+
+    if isinstance(v, _Inf):
+        return _Inf(-v.sign)  # -float("inf") is float("-inf")
     v = as_arith(v)
     if is_z3(v):
         return -v
@@ -63,8 +67,20 @@ def neg(I, st, v):
     if isinstance(v, Ref) and st.get(v).kind == "nd":
         from . import npmodel
 
+        if npmodel.dtype_of(st.get(v)) not in ("i", "f"):
+            # numpy: `-boolarr` raises TypeError (the boolean negative is not supported); other kinds are not modelled
+            raise Unsupported("unary minus on an array that is not int64 / float64")
         return npmodel.nd_map(I, st, v, lambda x: neg(I, st, x))
     raise Unsupported("unary minus on %r" % (v,))
+
+
+def _sqrt_power(I, st, a):
+    """a ** 0.5: the square root for a >= 0; a NEGATIVE base gives a complex number in CPython (no exception, unlike
+    math.sqrt): outside the model"""
+    for st1, r in sqrt(I, st, a):
+        if isinstance(r, Exc):
+            raise Unsupported("negative base to the power 0.5 (complex result)")
+        yield st1, r
 
 
 def power(I, st, a, b):
@@ -73,7 +89,7 @@ def power(I, st, a, b):
     if not is_z3(a) and not is_z3(b):
         if isinstance(b, Fraction) and b.denominator != 1:
             if b == Fraction(1, 2):
-                yield from sqrt(I, st, a)
+                yield from _sqrt_power(I, st, a)
                 return
             yield from rational_power(I, st, a, b)
             return
@@ -92,7 +108,7 @@ def power(I, st, a, b):
         raise Unsupported("symbolic exponent")
     if isinstance(b, Fraction) and b.denominator != 1:
         if b == Fraction(1, 2):
-            yield from sqrt(I, st, a)
+            yield from _sqrt_power(I, st, a)
             return
         yield from rational_power(I, st, a, b)
         return
@@ -442,7 +458,21 @@ def binop(I, st, op, a, b, inplace=False):
                     if res.shape != tgt.shape:
                         yield st1, exc("ValueError", "non-broadcastable output operand")
                         continue
-                    tgt.data[:] = list(res.data)
+                    # the result is written back into the array's OWN dtype under numpy's same_kind casting rule:
+                    # bool -> int64 -> float64 is allowed, the other direction raises UFuncTypeError (a TypeError):
+                    # `intarr += 1.5`, `intarr /= 2`, `boolarr += 1`
+                    rk, tk = npmodel.dtype_of(res), npmodel.dtype_of(tgt)
+                    order = {"b": 0, "i": 1, "f": 2}
+                    if tk != "O" and rk != tk:
+                        if rk not in order or tk not in order:
+                            raise Unsupported("in-place arithmetic between arrays of kinds %s and %s" % (tk, rk))
+                        if order[rk] > order[tk]:
+                            yield st1, exc("TypeError", "Cannot cast ufunc output from dtype %s to dtype %s with casting rule 'same_kind'" % (rk, tk))
+                            continue
+                    vals = [npmodel.cast_elem(I, st1, tgt, x) for x in res.data]
+                    if any(isinstance(x, Exc) for x in vals):
+                        raise Unsupported("in-place arithmetic: element not storable")
+                    tgt.data[:] = vals
                     npmodel.sync_views(st1, a)
                     yield st1, a
                 return
